@@ -23,6 +23,7 @@ JOB_LIMIT_S = float(os.environ.get('VERIF_JOB_LIMIT', '600'))
 CASE_LIMIT_S = float(os.environ.get('VERIF_CASE_LIMIT', '20'))
 MAX_STORED_PER_SIG = 3
 MAX_STORED = 60
+MAX_SUSPECTS = 4
 
 
 def jsonable(x, depth=0):
@@ -271,6 +272,7 @@ def run_jobs(modname, jobs, log=print):
     pending = list(range(len(jobs)))[::-1]
     workers = {}       # conn -> [proc, idx, t0]
     suspects = []      # (idx, 'hang'|'crash')
+    skipped = []
     agg = Aggregate()
 
     def spawn():
@@ -299,7 +301,7 @@ def run_jobs(modname, jobs, log=print):
         feed(spawn())
     done = 0
     last_log = time.time()
-    while done + len(suspects) < len(jobs):
+    while done + len(suspects) + len(skipped) < len(jobs):
         busy = [c for c, w in workers.items() if w[1] is not None]
         if not busy:
             break
@@ -333,6 +335,11 @@ def run_jobs(modname, jobs, log=print):
                 w[0].kill()
                 w[0].join(1)
                 del workers[c]
+                if len(suspects) >= MAX_SUSPECTS and pending:
+                    # the tree under test hangs or crashes all over the place: a few isolated cases are enough to report it
+                    log('  %d jobs hung or crashed: not starting the remaining %d jobs' % (len(suspects), len(pending)))
+                    skipped.extend(pending)
+                    del pending[:]
                 if pending:
                     feed(spawn())
         if now - last_log > 30:
